@@ -1,5 +1,5 @@
 (* C19 — AWS node removal hits only the right instances and respects the ASG minimum.  Theorems only. *)
-From Esc Require Import SpecAws Examples proofs.AwsProofs proofs.ScanLemmas proofs.ScanOrder.
+From Esc Require Import SpecAws Examples proofs.AwsProofs proofs.ScanLemmas proofs.ScanOrder proofs.ScanRun proofs.ScanRunTheorems.
 
 (* provider: the request is refused as a whole, with no AWS call, when it would breach the minimum *)
 Theorem c19_refuse : forall a nodes fails,
@@ -66,3 +66,9 @@ Print Assumptions c19_budget.
 Example c19_ex : removal_targets (r_calls (ex_scan ex_opts gstate0 4800))
                = [(Some [105; 51], None); (None, Some 203); (Some [105; 50], None); (None, Some 202)].
 Proof. vm_compute. reflexivity. Qed.
+
+(* over a whole RunOnce: the checker evaluated by the correspondence holds of every group journal the model produces
+   (group names and cloud group names pairwise distinct) *)
+Theorem c19_run_once : forall s, wf_groups s -> for_groups check_C19_budget s (run_journals s) = true.
+Proof. exact run_passes_C19_budget. Qed.
+Print Assumptions c19_run_once.
